@@ -1,6 +1,7 @@
 package svc
 
 import (
+	"os"
 	"errors"
 	"fmt"
 	"github.com/spq/pkappa2/internal/index/converters"
@@ -105,6 +106,21 @@ func (w *World) ApplyAPI(call string) error {
 			w.Mgr.VerifSetIndexDir(filepath.Join(w.Dir, "no-such-directory"))
 		case "mergedir-back":
 			w.Mgr.VerifSetIndexDir(w.IndexDir)
+		case "statedir-gone":
+			// the state directory cannot be written to for a while: it is moved aside and a plain file takes its name
+			if err := os.Rename(w.StateDir, w.StateDir+".away"); err != nil {
+				return err
+			}
+			if err := os.WriteFile(w.StateDir, nil, 0o644); err != nil {
+				return err
+			}
+		case "statedir-back":
+			if err := os.Remove(w.StateDir); err != nil {
+				return err
+			}
+			if err := os.Rename(w.StateDir+".away", w.StateDir); err != nil {
+				return err
+			}
 		default:
 			return fmt.Errorf("unknown fault %q", arg)
 		}
